@@ -196,9 +196,10 @@ struct Model {
     fin_sent: bool,
     /// numeric `max_len` the last BodyToFile used
     last_max: u64,
+    /// re-evaluate a body read as if the request carried no Expect (second half of a Free cell)
+    ignore_expect: bool,
 }
 
-const CONTINUE_BYTES: &[u8] = b"HTTP/1.1 100 Continue\r\ncontent-length: 0\r\n\r\n";
 
 impl Model {
     fn is_ready(&self) -> bool {
@@ -291,7 +292,7 @@ impl Model {
                     }
                 }
                 // the interim response goes out automatically, but only while a response is owed
-                let wire = if expect {
+                let wire = if expect && !self.ignore_expect {
                     match self.write {
                         MWrite::Owed => Wire::Continue100,
                         // documentation does not say what reading an Expect body does once the
@@ -421,14 +422,12 @@ impl Feeder {
             if *g == self.pos {
                 // wait for the interim response before sending the body
                 let wire: Vec<u8> = with(|w| w.net.conns[self.conn].s2c_log.clone());
-                let seen = wire.windows(CONTINUE_BYTES.len()).filter(|w| *w == CONTINUE_BYTES).count();
+                let (rs, _) = parse_transcript(&wire);
+                let seen = rs.iter().filter(|r| r.code == 100).count();
                 let passed = self.gates.iter().filter(|x| **x < self.pos).count();
-                if seen <= passed {
-                    // a final response also releases the client
-                    let (rs, _) = parse_transcript(&wire);
-                    if !rs.iter().any(|r| r.code / 100 != 1) {
-                        return false;
-                    }
+                // a final response also releases the client
+                if seen <= passed && !rs.iter().any(|r| r.code / 100 != 1) {
+                    return false;
                 }
             }
         }
@@ -471,7 +470,7 @@ fn run_program(script_idx: usize, prog: &[OpK], interleaved: bool, gated: bool) 
         while feeder.feed() {}
     }
     let mut conn = HttpConn::new(addr(), async_net::TcpStream::sim_from_conn(id));
-    let mut model = Model { read: MRead::Head, write: MWrite::None, msgs: msgs.clone(), mi: 0, at_eof: false, fin_sent: false, last_max: 0 };
+    let mut model = Model { read: MRead::Head, write: MWrite::None, msgs: msgs.clone(), mi: 0, at_eof: false, fin_sent: false, last_max: 0, ignore_expect: false };
     let mut wire_seen = 0usize;
     let ctx = |i: usize| format!("script '{sname}', program {:?}, at op #{i} {:?}", prog, prog[i]);
     for (i, op) in prog.iter().enumerate() {
@@ -525,16 +524,26 @@ fn run_program(script_idx: usize, prog: &[OpK], interleaved: bool, gated: bool) 
         };
         let wire_all: Vec<u8> = with(|w| w.net.conns[id].s2c_log.clone());
         let delta = &wire_all[wire_seen..];
-        if exp == Exp::Free {
-            // adopt the implementation's post-state; misuse must still be silent on the wire
+        let (exp, wire_exp) = if exp == Exp::Free {
+            // The documentation does not say whether a body announced with Expect can still be
+            // read once the final response is out. Two readings are accepted: the call is
+            // refused (then NOTHING may change: no bytes, same protocol state - the body is
+            // still unread), or the body is read without an interim response.
             gen::count("probe.free_cell");
-            if !delta.is_empty() && got.starts_with("Err") {
-                return Outcome::fail("C05.misuse_leaves_wire_alone", format!("{}: returned {got} but put {} bytes on the wire", ctx(i), delta.len()));
+            if got.starts_with("Err(") {
+                if got != "Err(ResponseAlreadySent)" && got != "Err(Disconnected)" {
+                    return Outcome::fail("C05.call_result", format!("{}: returned {got} for a body read that can no longer send its 100-continue", ctx(i)));
+                }
+                (Exp::Err(if got == "Err(Disconnected)" { HttpError::Disconnected } else { HttpError::ResponseAlreadySent }), Wire::Nothing)
+            } else {
+                model.ignore_expect = true;
+                let r = model.apply(*op);
+                model.ignore_expect = false;
+                r
             }
-            adopt(&mut model, &conn, msgs);
-            wire_seen = wire_all.len();
-            continue;
-        }
+        } else {
+            (exp, wire_exp)
+        };
         let want = match &exp {
             Exp::OkUnit => "OkUnit".to_string(),
             Exp::OkRequest(p) => format!("OkRequest({p})"),
@@ -636,17 +645,18 @@ fn wire_diff(exp: &Wire, delta: &[u8]) -> Option<String> {
             }
         }
         Wire::Continue100 => {
-            if delta == CONTINUE_BYTES {
+            let (rs, end) = parse_transcript(delta);
+            if end == End::Clean && rs.len() == 1 && rs[0].code == 100 && rs[0].body.is_empty() {
                 None
             } else {
                 Some("expected exactly one `100 Continue` interim response".to_string())
             }
         }
         Wire::ContinueThen(rest) => {
-            if delta.starts_with(CONTINUE_BYTES) {
-                wire_diff(rest, &delta[CONTINUE_BYTES.len()..])
-            } else {
-                Some("expected a `100 Continue` first".to_string())
+            let (rs, _) = parse_transcript(delta);
+            match rs.first() {
+                Some(r) if r.code == 100 => wire_diff(rest, &delta[r.end..]),
+                _ => Some("expected a `100 Continue` first".to_string()),
             }
         }
         Wire::Response(code, body) => {
